@@ -311,14 +311,16 @@ def pow2_of(lit):
     if v <= 0 or v & (v - 1): return None
     return v.bit_length() - 1
 
+fshape = {}
 def tr_float(key):
-    """returns lean text of an FConv value"""
+    """returns lean text of an FConv value; records the recognised shape in fshape[key]"""
     mod, fn = key; dst = fn[3:]; rec = funcs[key]
     if rec['err']: raise TranslationError(rec['err'])
     e = rec['ast']; var = rec['var']
     if mod in FLOATS and dst in FLOATS:
         # `s as f64` / `s as f32`
         if e[0] == 'as' and e[1] == dst and e[2] == ('var', [var]):
+            fshape[key] = ('f2f',)
             return '(.f2f .%s .%s)' % (mod, dst)
         raise TranslationError("unrecognised float->float shape")
     if dst in FLOATS:
@@ -328,6 +330,8 @@ def tr_float(key):
             if k is None or '.' not in e[3][1]: raise TranslationError("divisor is not a float power of two")
             pre, t = tr(e[2][2], rec['ty'], mod, var)
             if t is None or isinstance(t, tuple): raise TranslationError("cast operand not primitive")
+            if pre != '.var': raise TranslationError("int->float cast operand is not the plain argument")
+            fshape[key] = ('i2f', k, t)
             return '(.i2f %s .%s .%s %d)' % (pre, t, dst, k)
         if e[0] == 'call':
             k1 = callee_key(e[1], mod)
@@ -336,6 +340,9 @@ def tr_float(key):
             pre, t = tr(inner, rec['ty'], mod, var)
             got = t[1] if isinstance(t, tuple) else t
             if got != UNMOD[k1[0]]: raise TranslationError("inner type mismatch")
+            if not (inner[0] == 'call' and inner[2] == ('var', [var])): raise TranslationError("inner expression is not a single conversion call on the argument")
+            k0 = callee_key(inner[1], mod)
+            fshape[key] = ('viaInt', k0, k1)
             return '(.viaInt %s %s_%s)' % (pre, k1[0], k1[1])
         raise TranslationError("unrecognised int->float shape")
     if mod in FLOATS:
@@ -348,11 +355,14 @@ def tr_float(key):
                 return k, e[1]
             return None
         c = core(e)
-        if c: return '(.f2i .%s %d .%s .var)' % (mod, c[0], c[1])
+        if c:
+            fshape[key] = ('f2i', c[0], c[1], None)
+            return '(.f2i .%s %d .%s .var)' % (mod, c[0], c[1])
         if e[0] == 'call' and e[1][-1] == 'new_unchecked' and len(e[1]) == 2 and e[1][0] in CUSTOM:
             c = core(e[2])
             if c is None: raise TranslationError("unrecognised new_unchecked argument")
             if c[1] != REP[e[1][0]]: raise TranslationError("new_unchecked argument type")
+            fshape[key] = ('f2i', c[0], c[1], MOD[e[1][0]])
             return '(.f2i .%s %d .%s (.newUnchecked .%s .var))' % (mod, c[0], c[1], MOD[e[1][0]])
         if e[0] == 'call':
             k1 = callee_key(e[1], mod)
@@ -361,6 +371,7 @@ def tr_float(key):
             k2 = callee_key(inner[1], mod)
             if k2[0] != mod or k1[0] != k2[1][3:]: raise TranslationError("call chain does not compose")
             if k1[1] != 'to_' + dst: raise TranslationError("outer call is not to_%s" % dst)
+            fshape[key] = ('thenInt', k2, k1)
             return '(.thenInt %s_%s %s_%s)' % (k2[0], k2[1], k1[0], k1[1])
         raise TranslationError("unrecognised float->int shape")
     raise TranslationError("not a float conversion")
@@ -463,6 +474,102 @@ for s in intmods:
         else: tb.append('  | .%s, .%s, hsd, _, _ => absurd rfl hsd' % (s, d))
 tb.append('end Dasp.Gen')
 open(os.path.join(OUT, 'ConvTable.lean'), 'w').write('\n'.join(tb) + '\n')
+
+# ---- float conversion theorems (shape obligations closed by the generic lemmas of Lemmas/FloatConv.lean)
+OFFL = {f: (0 if f.startswith('i') else 2 ** (BITS[f] - 1)) for f in BITS}
+def amp(f, v='v'): return v if OFFL[f] == 0 else '(%s - %d)' % (v, OFFL[f])
+NN = 'norm_num [Dasp.f32, Dasp.f64]'
+ft = [HEADER] + ['import Dasp.Gen.ConvThm_%s' % s for s in intmods] + ['import Dasp.Lemmas.FloatConv', 'namespace Dasp.Gen', 'open Dasp', '']
+fthm = {}
+def emit_i2f(key):
+    if key in fthm or key not in fshape: return
+    s, d = key[0], key[1][3:]
+    sh = fshape[key]
+    name = '%s_to_%s_spec' % (s, d)
+    stmt = ('/-- conv.rs:%d -/\n' % funcs[key]['line']) + 'theorem %s (v : Int) (h : Fmt.inRange .%s v) :\n    %s_to_%s.i2fVal v = specI2F Dasp.%s %s %d' % (name, s, s, d, d, amp(s), BITS[s] - 1)
+    if sh[0] == 'i2f':
+        k = sh[1]
+        if k != BITS[s] - 1:
+            errors.append(dict(function='%s_to_%s' % (s, d), line=funcs[key]['line'], error='divisor is 2^%d, expected 2^%d' % (k, BITS[s] - 1), text=funcs[key]['text']))
+        ft.append(stmt + ' := by\n'
+                  + '  unfold %s_to_%s; simp only [FConv.i2fVal, val, FFmt.fmt]\n' % (s, d)
+                  + '  simp only [Fmt.inRange, Fmt.lo, Fmt.hi] at h\n'
+                  + '  exact i2f_shape _ (by %s) v %d (by %s) (by %s) (by rw [abs_le]; norm_num; omega)' % (NN, k, NN, NN))
+    elif sh[0] == 'viaInt':
+        k0, k1 = sh[1], sh[2]
+        emit_i2f(k1)
+        m = k1[0]
+        delta = OFFL[s] - OFFL[m]
+        inner_arg = '(v - %d)' % delta if delta else 'v'
+        ft.append(stmt + ' := by\n'
+                  + '  have hc := (%s_%s_spec v h).2.2\n' % (k0[0], k0[1])
+                  + '  have hs : specConv .%s .%s v = %s := by simp [specConv]\n' % (k0[0], k0[1][3:], inner_arg)
+                  + '  unfold %s_to_%s; simp only [FConv.i2fVal, val]\n' % (s, d)
+                  + '  rw [hc, hs]\n'
+                  + '  have hr : Fmt.inRange .%s %s := by simp only [Fmt.inRange, Fmt.lo, Fmt.hi] at h ⊢; omega\n' % (m, inner_arg)
+                  + '  have := %s_%s_spec %s hr\n' % (k1[0], k1[1], inner_arg)
+                  + '  simpa using this')
+    else:
+        return
+    fthm[key] = name
+def emit_f2i(key):
+    if key in fthm or key not in fshape: return
+    s, d = key[0], key[1][3:]
+    sh = fshape[key]
+    name = '%s_to_%s_spec' % (s, d)
+    k = BITS[d] - 1
+    res = 'truncQ (sval n q * 2 ^ %d)' % k + ('' if OFFL[d] == 0 else ' + %d' % OFFL[d])
+    stmt = ('/-- conv.rs:%d -/\n' % funcs[key]['line']) + 'theorem %s (n : Bool) (q : ℚ) (hd : InDomain Dasp.%s n q) :\n    %s_to_%s.f2iVal (.fin n q) = %s ∧ Fmt.inRange .%s (%s)' % (name, s, s, d, res, d, res)
+    if sh[0] == 'f2i':
+        if sh[1] != k:
+            errors.append(dict(function='%s_to_%s' % (s, d), line=funcs[key]['line'], error='multiplier is 2^%d, expected 2^%d' % (sh[1], k), text=funcs[key]['text']))
+        ft.append(stmt + ' := by\n'
+                  + '  have hsh := f2i_shape Dasp.%s n q %d .%s hd (by %s) (by norm_num) (by norm_num)\n' % (s, sh[1], sh[2], NN)
+                  + '  unfold %s_to_%s; simp only [FConv.f2iVal, val, FFmt.fmt]\n' % (s, d)
+                  + '  refine ⟨hsh.1, ?_⟩\n'
+                  + '  have h1 := hsh.2.1; have h2 := hsh.2.2\n'
+                  + '  norm_num at h1 h2\n'
+                  + '  simp only [Fmt.inRange, Fmt.lo, Fmt.hi]; omega')
+    elif sh[0] == 'thenInt':
+        k2, k1 = sh[1], sh[2]
+        emit_f2i(k2)
+        m = k2[1][3:]
+        ft.append(stmt + ' := by\n'
+                  + '  obtain ⟨hv, hr⟩ := %s_%s_spec n q hd\n' % (k2[0], k2[1])
+                  + '  have hc := (%s_%s_spec _ hr).2.2\n' % (k1[0], k1[1])
+                  + '  have hs : ∀ x : Int, specConv .%s .%s x = x + %d := by intro x; simp [specConv]\n' % (k1[0], k1[1][3:], OFFL[d] - OFFL[m])
+                  + '  unfold %s_to_%s; simp only [FConv.f2iVal]\n' % (s, d)
+                  + '  rw [hv, hc, hs]\n'
+                  + '  refine ⟨rfl, ?_⟩\n'
+                  + '  simp only [Fmt.inRange, Fmt.lo, Fmt.hi] at hr ⊢; omega')
+    else:
+        return
+    fthm[key] = name
+for key in order:
+    if key[1][3:] in FLOATS and key[0] in intmods: emit_i2f(key)
+for key in order:
+    if key[0] in FLOATS and key[1][3:] in intmods: emit_f2i(key)
+ft.append('')
+ft.append('/-- every integer→float conversion is the correctly rounded amplitude / 2^(bits−1) -/')
+ft.append('theorem i2f_table_spec : ∀ (s : Fmt) (p : FFmt) (v : Int), s.inRange v →\n    (i2fTable s p).i2fVal v = specI2F p.fmt (v - s.off) (s.bits - 1)')
+for s in intmods:
+    for d in FLOATS:
+        if (s, 'to_' + d) in fthm: ft.append('  | .%s, .%s, v, h => by simpa [i2fTable] using %s_to_%s_spec v h' % (s, d, s, d))
+        else: ft.append('  | .%s, .%s, v, h => by fail "untranslated %s_to_%s"' % (s, d, s, d))
+ft.append('')
+ft.append('/-- every float→integer conversion truncates x·2^(bits−1) toward zero and re-offsets, in range, on the documented domain -/')
+ft.append('theorem f2i_table_spec : ∀ (p : FFmt) (d : Fmt) (n : Bool) (q : ℚ), InDomain p.fmt n q →\n    (f2iTable p d).f2iVal (.fin n q) = truncQ (sval n q * 2 ^ (d.bits - 1)) + d.off ∧\n    d.inRange (truncQ (sval n q * 2 ^ (d.bits - 1)) + d.off)')
+for s in FLOATS:
+    for d in intmods:
+        if (s, 'to_' + d) in fthm: ft.append('  | .%s, .%s, n, q, hd => by simpa [f2iTable] using %s_to_%s_spec n q hd' % (s, d, s, d))
+        else: ft.append('  | .%s, .%s, n, q, hd => by fail "untranslated %s_to_%s"' % (s, d, s, d))
+ft.append('')
+ff_names = ''.join(', %s_to_%s' % k for k in [('f32', 'f64'), ('f64', 'f32')] if (k[0], 'to_' + k[1]) in fshape)
+ft.append('theorem f2f_table_spec (a b : FFmt) (x : FP) : (f2fTable a b).f2fVal x = cvt b x := by\n  cases a <;> cases b <;> simp [f2fTable, FConv.f2fVal%s]' % ff_names)
+ft.append('end Dasp.Gen')
+open(os.path.join(OUT, 'ConvFloatThm.lean'), 'w').write('\n'.join(ft) + '\n')
+for key, name in fthm.items():
+    theorems[name] = dict(module='Dasp.Gen.ConvFloatThm', line=funcs[key]['line'], function='%s::%s' % key)
 
 json.dump(dict(source=src_path, n_int=len(defs), n_float=len(fdefs), errors=errors, theorems=theorems,
                functions={'%s_%s' % k: dict(line=funcs[k]['line'], text=funcs[k]['text']) for k in order if k[1] != '__trailing__'}),
